@@ -146,6 +146,55 @@ class Ast:
                           'stmts': [node['body']] + [h['body'] for h in extra]}
         return merged
 
+    def expand_predicates(self, node, file, depth=2):
+        """Copy of `node` in which calls to same-file functions whose body is a single expression
+        (`fn deltas_fit(&self, lo, hi) -> bool { self.min >= lo && self.max <= hi }`) are replaced by
+        that expression with the parameters substituted: conditions moved into predicate helpers
+        read as they did before."""
+        import copy as _copy
+        if depth <= 0 or not isinstance(node, (dict, list)):
+            return node
+        if isinstance(node, list):
+            return [self.expand_predicates(x, file, depth) for x in node]
+        out = {}
+        for k, v in node.items():
+            out[k] = self.expand_predicates(v, file, depth) if isinstance(v, (dict, list)) else v
+        name, args, recv = None, None, None
+        if out.get('k') == 'mcall':
+            name, args, recv = out['method'], out.get('args', []), out.get('recv')
+        elif out.get('k') == 'call' and (out.get('func') or {}).get('path'):
+            name, args = last_seg(out['func']['path']), out.get('args', [])
+        if name is None:
+            return out
+        cands = [n for (p_, q, n) in self.fns if p_.endswith(file) and q.split('::')[-1] == name and n.get('body')]
+        if len(cands) != 1:
+            return out
+        fn = cands[0]
+        body = fn['body']
+        while isinstance(body, dict) and body.get('k') == 'block' and len(body.get('stmts', [])) == 1:
+            body = body['stmts'][0]
+        if not isinstance(body, dict) or body.get('k') in ('block', 'let', 'for', 'while', 'loop'):
+            return out
+        params = [x['name'] for x in fn.get('params', [])]
+        has_self = bool(params) and params[0] == 'self' or (recv is not None and len(params) == len(args) + 1)
+        names = params[1:] if (recv is not None and params and params[0] == 'self') else \
+            (params if len(params) == len(args) else params[-len(args):] if args else [])
+        if len(names) != len(args):
+            return out
+        sub = dict(zip(names, args))
+
+        def subst(n):
+            if isinstance(n, list):
+                return [subst(x) for x in n]
+            if not isinstance(n, dict):
+                return n
+            if n.get('k') == 'path' and n.get('path') in sub:
+                return _copy.deepcopy(sub[n['path']])
+            if n.get('k') == 'path' and n.get('path') == 'self' and recv is not None:
+                return _copy.deepcopy(recv)
+            return {k: subst(v) if isinstance(v, (dict, list)) else v for k, v in n.items()}
+        return self.expand_predicates(subst(_copy.deepcopy(body)), file, depth - 1)
+
     def struct(self, name, file=None):
         r = [(p, n) for (p, n) in self.structs.get(name, []) if not file or p.endswith(file)]
         if len(r) != 1:
